@@ -5,9 +5,9 @@
 // ring, it INCREASES along efficiency iterations although the distance with every pair counted once decreases.
 //   g++ -std=gnu++17 -O2 -DNDEBUG -I/repo/src/include -I<build>/src/include C20-repro.cxx <stir libs> ...
 // Output on the unchanged tree (16 detectors, 4 rings, all ring differences, fan of 9):
-//   it 1 libKL 503.039  pair-once KL 401.595
-//   it 2 libKL 503.070 INCREASE  pair-once KL 401.522
-//   it 3 libKL 503.122 INCREASE  pair-once KL 401.518
+//   it 1 libKL 522.878338  pair-once KL 424.883835
+//   it 2 libKL 522.491519  pair-once KL 424.708032
+//   it 3 libKL 522.498649 INCREASE pair-once KL 424.683153      (pair-once KL decreases in all 8 iterations)
 #include "stir/ML_norm.h"
 #include "stir/ProjDataInMemory.h"
 #include "stir/ProjDataInfo.h"
